@@ -80,6 +80,22 @@ Theorem C05_only_enabled_keyset_keys_matter :
 Proof. intros. split; [apply accept_ignores_non_enabled | apply accept_ext]. Qed.
 Print Assumptions C05_only_enabled_keyset_keys_matter.
 
+(* For primitives that check their own prefix (every full primitive; legacy
+   primitives behind the hybrid, MAC and verifier adapters, which compare the
+   prefix before stripping it) the prefix clause follows from validity:
+   accepted <=> valid under some ENABLED key of the keyset. *)
+Theorem C05_prefix_checking_primitives :
+  forall (raw_valid : fentry -> bytes -> bytes -> bool) ad d ks x, ad <> AdStrip ->
+    (forall e, In e ks -> flegacy e = false -> raw_valid e x d = true ->
+               fraw e = true \/ prefix_of e = firstn 5 x) ->
+    ((exists e, accept (entry_valid_b raw_valid ad d) ks x = Some e) <->
+     exists e, In e ks /\ fenabled e = true /\ entry_valid_b raw_valid ad d e x = true).
+Proof.
+  intros raw_valid ad d ks x Had Hfull. apply accept_prefix_checking.
+  intros e He V. eapply entry_valid_b_carries; eauto.
+Qed.
+Print Assumptions C05_prefix_checking_primitives.
+
 (* Monitoring: a success is logged under the id of the accepting entry; with
    distinct ids that id identifies the entry. *)
 Theorem C05_logged_id_names_the_accepting_key :
